@@ -53,13 +53,15 @@ Proof. exact unmark_pending. Qed.
 Print Assumptions C17_unmark_pending.
 
 (* ... and it can be packed once more: the pending entry with that hash is in the next batch whenever it
-   is not ahead of the sender's state nonce (or is not nonce-checked) and the pending list fits the
-   per-block limit. *)
+   is not ahead of the sender's state nonce (or is not nonce-checked), the pending list fits the
+   per-block limit and no pending nonce is 2^64-1 (there the code's uint64 expected-nonce counter wraps
+   to 0 and later transactions of that sender are skipped). *)
 Theorem C17_reorg_repackable : forall lim s txs ev t f st cap,
   In t txs -> N.of_nat (length (received s) + length txs) <= lim ->
   let s' := unmark lim s txs ev in
   exists t', In t' (received s') /\ thash t' = thash t /\ ~ In (thash t) (exec_keys s') /\
-    (N.of_nat (length (received s')) <= cap -> trid t' <> 0 \/ tnonce t' <= st (tsrc t') ->
+    ((forall x, In x (received s') -> tnonce x + 1 < two64) ->
+     N.of_nat (length (received s')) <= cap -> trid t' <> 0 \/ tnonce t' <= st (tsrc t') ->
      In t' (pack f st cap s')).
 Proof. exact reorg_repackable. Qed.
 Print Assumptions C17_reorg_repackable.
@@ -77,7 +79,9 @@ Print Assumptions C17_unmark_full_refuted.
    w.r.t. Transactions.Less — Go's sort.Sort is not stable): no duplicate hashes, at most [cap]
    transactions, only pending and never executed ones, a sender's nonce-checked (RequestId = 0)
    transactions in ascending nonce order, and none ahead of the sender's next expected nonce
-   ([expected st pre] = state nonce + in-sequence transactions of that sender placed before it). *)
+   ([expected st pre] = state nonce + in-sequence transactions of that sender placed before it, as a
+   mathematical number; the code's uint64 counter, modelled with its wrap-around at 2^64, never exceeds
+   it). *)
 Theorem C17_pack : forall f st cap s sorted,
   inv s -> Permutation (received s) sorted -> sorted_by f sorted -> p016 f || p021 f || p023 f = true ->
   let p := pack_sorted st cap sorted in
